@@ -263,34 +263,44 @@ def checkBackendMasterStatus (c : Cfg) (s : St) (now : Int) (p : Probe) : St :=
 /-- `masterStatus, err := s.GetMasterStatus(); err != nil || masterStatus == StatusDown` -/
 def masterDown (c : Cfg) (s : St) : Bool := !c.hasMaster || !s.master.up
 
-/-- checkWithNoRecovery -/
+/-- checkWithNoRecovery.  While the master is down only the replication check is
+    skipped (fix 4cba6eb: a replica whose probe failed in this round keeps its status). -/
 def checkWithNoRecovery (c : Cfg) (s : St) (now : Int) (p : Probe) (q : SlaveQ) : St :=
   let (r, conn) := probeNode c now s.rep p
   let s := { s with rep := r }
   if shouldDownAfterNoAlive now r c.downAfter then setRep s false
-  else if masterDown c s then (if !s.rep.up then setRep s true else s)
+  else if masterDown c s then (if conn && !s.rep.up then setRep s true else s)
   else if !checkSlaveSyncStatus conn c.sbm q then setRep s false
   else if conn && !s.rep.up then setRep s true
   else s
 
-/-- checkWithHardRecovery -/
+/-- checkWithHardRecovery.  While the master is down only the replication check is
+    skipped (fixes 4cba6eb, 5e8b660: own probe passed, `AllowRecovery` consulted). -/
 def checkWithHardRecovery (c : Cfg) (s : St) (now : Int) (p : Probe) (q : SlaveQ) : St :=
   let (r, conn) := probeNode c now s.rep p
   let s := { s with rep := r }
   if shouldDownAfterNoAlive now r c.downAfter then setRep s false
-  else if masterDown c s then (if !s.rep.up then setRep s true else s)
+  else if masterDown c s then
+    (if conn && !s.rep.up then
+      (if !hardAllowRecovery c s now then s else setRep s true)
+     else s)
   else if !checkSlaveSyncStatus conn c.sbm q then setRep s false
   else if conn && !s.rep.up then
     (if !hardAllowRecovery c s now then s else setRep s true)
   else s
 
-/-- checkWithGradualRecovery -/
+/-- checkWithGradualRecovery.  While the master is down only the replication check
+    is skipped (fix 87be324: a replica whose probe passed goes through `AllowRecovery`). -/
 def checkWithGradualRecovery (c : Cfg) (s : St) (now : Int) (p : Probe) (q : SlaveQ) : St :=
   let (r, conn) := probeNode c now s.rep p
   let s := { s with rep := r }
   let s := if !conn && !s.rep.up then refreshCoolDownCount s else s
   if shouldDownAfterNoAlive now r c.downAfter then setRep s false
-  else if masterDown c s then s
+  else if masterDown c s then
+    (if conn && !s.rep.up then
+      let (s', allow) := gradualAllowRecovery s
+      if allow then setRep { s' with lastRec := now } true else s'
+     else s)
   else if !checkSlaveSyncStatus conn c.sbm q then setRep s false
   else if conn && !s.rep.up then
     let (s', allow) := gradualAllowRecovery s
